@@ -87,23 +87,23 @@ def Sim (τ : List Addr) (exitCode : Nat) (orig : Code) (entry : Addr) (s : St) 
   | .inProgress => Live orig entry sp.B s ∧ s.idx = sp.idx ∧ s.idx < τ.length ∧ sp.late = []
   | .exited => Gone sp.late s
 
-theorem Sim.status {τ x orig entry s sp} (h : Sim τ x orig entry s sp) : s.status = sp.status := by
+private theorem Sim.status {τ x orig entry s sp} (h : Sim τ x orig entry s sp) : s.status = sp.status := by
   obtain ⟨_, _, hm⟩ := h
   cases hs : sp.status <;> rw [hs] at hm
   · exact hm.1.st
   · exact hm.1.st
   · exact hm.st
 
-theorem Sim.unload {τ x orig entry s sp} (hτ : s.τ = τ) (hx : s.exitCode = x) (hs : sp.status = .unload)
+private theorem Sim.unload {τ x orig entry s sp} (hτ : s.τ = τ) (hx : s.exitCode = x) (hs : sp.status = .unload)
     (hf : Fresh orig entry sp.B s) (hl : sp.late = []) : Sim τ x orig entry s sp :=
   ⟨hτ, hx, by rw [hs]; exact ⟨hf, hl⟩⟩
 
-theorem Sim.live {τ x orig entry s sp} (hτ : s.τ = τ) (hx : s.exitCode = x) (hs : sp.status = .inProgress)
+private theorem Sim.live {τ x orig entry s sp} (hτ : s.τ = τ) (hx : s.exitCode = x) (hs : sp.status = .inProgress)
     (hf : Live orig entry sp.B s) (hi : s.idx = sp.idx) (hlt : s.idx < τ.length) (hl : sp.late = []) :
     Sim τ x orig entry s sp :=
   ⟨hτ, hx, by rw [hs]; exact ⟨hf, hi, hlt, hl⟩⟩
 
-theorem Sim.gone {τ x orig entry s sp} (hτ : s.τ = τ) (hx : s.exitCode = x) (hs : sp.status = .exited)
+private theorem Sim.gone {τ x orig entry s sp} (hτ : s.τ = τ) (hx : s.exitCode = x) (hs : sp.status = .exited)
     (hf : Gone sp.late s) : Sim τ x orig entry s sp :=
   ⟨hτ, hx, by rw [hs]; exact hf⟩
 
@@ -200,5 +200,114 @@ theorem C01_simulation_step (τ : List Addr) (x : Nat) (orig : Code) (entry : Ad
       rw [exec_cont_gone hm]
       have e : sp.step s.τ s.exitCode .cont = (sp, .err) := by simp only [Spec.step, hs]
       rw [e]; exact ⟨rfl, Sim.gone rfl rfl hs hm.pokes⟩
+
+/-! ## Whole histories -/
+
+private theorem execAll_cons (s : St) (op : Op) (ops : List Op) :
+    execAll s (op :: ops) = ((execAll (exec s op).1 ops).1, (exec s op).2 :: (execAll (exec s op).1 ops).2) := rfl
+
+private theorem run_cons (τ x) (sp : Spec) (op : Op) (ops : List Op) :
+    Spec.run τ x sp (op :: ops) = ((Spec.run τ x (sp.step τ x op).1 ops).1,
+      (sp.step τ x op).2 :: (Spec.run τ x (sp.step τ x op).1 ops).2) := rfl
+
+/-- **simulation, from any pair of related states**: same answers, related end states -/
+theorem C01_simulation (τ : List Addr) (x : Nat) (orig : Code) (entry : Addr)
+    (ho : Bytes orig) (hcc : ∀ a ∈ τ, orig a ≠ 0xCC) (hhead : τ.head? = some entry) :
+    ∀ (ops : List Op) (s : St) (sp : Spec), Sim τ x orig entry s sp →
+      NoBreakAtEntry entry ops → NoRemoveAtEntry entry ops →
+      (execAll s ops).2 = (Spec.run τ x sp ops).2 ∧
+      Sim τ x orig entry (execAll s ops).1 (Spec.run τ x sp ops).1 := by
+  intro ops
+  induction ops with
+  | nil => intro s sp h _ _; exact ⟨rfl, h⟩
+  | cons op ops ih =>
+    intro s sp h hb hr
+    obtain ⟨h1, h2⟩ := C01_simulation_step τ x orig entry ho hcc hhead s sp h op
+      (hb op List.mem_cons_self) (hr op List.mem_cons_self)
+    obtain ⟨i1, i2⟩ := ih _ _ h2 (fun o ho' => hb o (List.mem_cons_of_mem _ ho'))
+      (fun o ho' => hr o (List.mem_cons_of_mem _ ho'))
+    rw [execAll_cons, run_cons]
+    exact ⟨by show _ :: _ = _ :: _; rw [h1, i1], i2⟩
+
+private theorem sim_init (τ : List Addr) (x : Nat) (orig : Code) (entry : Addr) :
+    Sim τ x orig entry (init τ entry orig x) {} :=
+  Sim.unload rfl rfl rfl (init_fresh τ entry orig x) rfl
+
+/-- **C01_continue_projection.**  For every native trace `τ` that starts at the ELF entry address, every original
+text without an `int3` of its own on the trace, every exit code and every command history that does not put or
+remove a breakpoint *at the entry address*, the debugger model answers exactly like the specification: `start` and
+`continue` stop at the successive first positions whose address is a user breakpoint *currently* set, report the
+true pc `τ[j]`, and report the exit (with the exit code) when there is no such position. -/
+theorem C01_continue_projection (τ : List Addr) (entry : Addr) (orig : Code) (exitCode : Nat) (ops : List Op)
+    (ho : Bytes orig) (hcc : ∀ a ∈ τ, orig a ≠ 0xCC) (hhead : τ.head? = some entry)
+    (hb : NoBreakAtEntry entry ops) (hr : NoRemoveAtEntry entry ops) :
+    (execAll (init τ entry orig exitCode) ops).2 = (Spec.run τ exitCode {} ops).2 :=
+  (C01_simulation τ exitCode orig entry ho hcc hhead ops _ _ (sim_init τ exitCode orig entry) hb hr).1
+
+private theorem spec_step_out (τ x) (sp : Spec) (op : Op) :
+    (sp.step τ x op).2 ≠ .corrupt ∧ (sp.step τ x op).2 ≠ .outOfFuel := by
+  cases op <;> cases hs : sp.status <;> simp only [Spec.step, Spec.goto] <;>
+    (try split) <;> (try split) <;> simp
+
+private theorem spec_run_out (τ x) : ∀ (ops : List Op) (sp : Spec), ∀ o ∈ (Spec.run τ x sp ops).2,
+    o ≠ .corrupt ∧ o ≠ .outOfFuel := by
+  intro ops
+  induction ops with
+  | nil => intro sp o ho; cases ho
+  | cons op ops ih =>
+    intro sp o ho
+    rw [run_cons] at ho
+    rcases List.mem_cons.mp ho with rfl | ho
+    · exact spec_step_out τ x sp op
+    · exact ih _ o ho
+
+/-- in particular the debugger never meets a SIGTRAP without a registered breakpoint, and the loop of
+`continue_execution` always terminates within the fuel -/
+theorem C01_no_corrupt_no_outOfFuel (τ : List Addr) (entry : Addr) (orig : Code) (exitCode : Nat) (ops : List Op)
+    (ho : Bytes orig) (hcc : ∀ a ∈ τ, orig a ≠ 0xCC) (hhead : τ.head? = some entry)
+    (hb : NoBreakAtEntry entry ops) (hr : NoRemoveAtEntry entry ops) :
+    ∀ o ∈ (execAll (init τ entry orig exitCode) ops).2, o ≠ .corrupt ∧ o ≠ .outOfFuel := by
+  rw [C01_continue_projection τ entry orig exitCode ops ho hcc hhead hb hr]
+  exact spec_run_out τ exitCode ops {}
+
+/-! ## The patch invariant -/
+
+/-- text = original text with `0xCC` exactly at the addresses of enabled registered breakpoints (while the debuggee
+process exists), every saved byte is the original byte at its address, registry addresses are pairwise distinct, and
+(at a prompt) every registered breakpoint is enabled -/
+structure PatchInv (orig : Code) (s : St) : Prop where
+  text : s.status ≠ .exited →
+    ∀ a, s.code a = if s.active.any (fun b => b.addr == a && b.enabled) then 0xCC else orig a
+  saved : ∀ b ∈ s.active, b.saved = orig b.addr
+  distinct : (s.active.map (·.addr)).Nodup
+  enabled : ∀ b ∈ s.active, b.enabled = true
+
+private theorem patchInv_of_ginv {orig s} (h : GInv orig s) : PatchInv orig s := by
+  by_cases hs : s.status = .exited
+  · have := h.dead hs
+    refine ⟨fun hne => absurd hs hne, ?_, ?_, ?_⟩ <;> rw [this]
+    · intro b hb; cases hb
+    · exact List.nodup_nil
+    · intro b hb; cases hb
+  · have hi := h.live hs
+    exact ⟨fun _ => hi.text, hi.saved, hi.nodup, hi.allEn⟩
+
+private theorem execAll_ginv {orig} (ho : Bytes orig) : ∀ (ops : List Op) (s : St), GInv orig s →
+    GInv orig (execAll s ops).1 ∧ (execAll s ops).1.τ = s.τ ∧ s.idx ≤ (execAll s ops).1.idx := by
+  intro ops
+  induction ops with
+  | nil => intro s h; exact ⟨h, rfl, Nat.le_refl _⟩
+  | cons op ops ih =>
+    intro s h
+    obtain ⟨e1, e2, _, e4⟩ := exec_ginv ho h op
+    obtain ⟨i1, i2, i3⟩ := ih _ e1
+    rw [execAll_cons]
+    exact ⟨i1, i2.trans e2, Nat.le_trans e4 i3⟩
+
+/-- **C01_patch_inv.**  After every command history whatsoever (any trace, any entry address, double adds at one
+address, removals of anything, ...) the patch invariant holds.  No hypothesis except that `orig` is made of bytes. -/
+theorem C01_patch_inv (τ : List Addr) (entry : Addr) (orig : Code) (exitCode : Nat) (ops : List Op)
+    (ho : Bytes orig) : PatchInv orig (execAll (init τ entry orig exitCode) ops).1 :=
+  patchInv_of_ginv (execAll_ginv ho ops _ (init_ginv τ entry orig exitCode)).1
 
 end BsVerif.Bp
